@@ -19,10 +19,11 @@ A15 = [b'a', b'B', b'7', b'_', b'-', b'.', b'/', b' ', b',', b'=', b'#',
 A8 = [b'a', b'1', b'_', b'/', b' ', b',', b'=', b'+']
 
 
-def judge_line(line):
+def judge_line(line, crlf=False):
     """line: the complete second header line without terminator."""
     ns = sut.load()
-    recs, err = sut.read_records(MAIN + line + b'\n', budget=False)
+    nl = b'\r\n' if crlf else b'\n'
+    recs, err = sut.read_records(MAIN[:-1] + nl + line + nl, budget=False)
     parsed = spec.parse_header(line)
     ok = parsed is not None and parsed[0] == '.change'
 
@@ -61,7 +62,7 @@ def judge_line(line):
 
 def run_case(case, st):
     line = case['line']
-    res = judge_line(line)
+    res = judge_line(line, case.get('crlf', False))
     ok = spec.parse_header(line) is not None
     st.case(case, nontrivial=b'=' in line,
             classes=['valid' if ok else 'invalid',
@@ -153,8 +154,12 @@ def strategy():
     @hs.composite
     def case(draw):
         prefix = draw(hs.sampled_from(PREFIXES))
-        pairs = draw(hs.lists(hs.tuples(key, val), min_size=0, max_size=4,
-                              unique_by=lambda p: p[0]))
+        pairs = draw(hs.lists(hs.tuples(key, val), min_size=0, max_size=4))
+
+        if pairs and draw(hs.integers(0, 3)) == 0:
+            # a repeated key (either value may be reported)
+            pairs.append((pairs[0][0], draw(val)))
+
         sep = draw(hs.sampled_from([', ', ', ', ', ', ',', ' ,', ',  ', ' ']))
         tail = sep.join('%s=%s' % p for p in pairs).encode('ascii')
 
@@ -176,7 +181,23 @@ def strategy():
 
         line = prefix + bytes(tail)
         line = line.replace(b'\n', b'')
-        return {'line': line}
+        case = {'line': line}
+
+        if draw(hs.integers(0, 2)) == 0:
+            case['crlf'] = True
+            line = line.replace(b'\r', b'')
+
+        if draw(hs.integers(0, 3)) == 0 and b'=' in line:
+            # pad the line to a length around the read-ahead block size
+            target = draw(hs.sampled_from([93, 94, 95, 96, 97, 189, 190, 191,
+                                           192, 193, 287, 288]))
+            extra = target - len(line) - len(b', pad=')
+
+            if extra >= 1:
+                line = line + b', pad=' + b'x' * extra
+
+        case['line'] = line
+        return case
 
     return case()
 
